@@ -262,7 +262,7 @@ theorem lookupLongest_congr (key : List Msg → K) (C C' : Cache K Ev) (msgs : L
     rw [h (n + 1) (by omega) (by omega)]
     rw [ih (fun p h1 h2 => h p h1 (by omega))]
 
-theorem serveStep_congr (key : List Msg → K) (conv : Bool → Msg → List Ev) (turn : List Ev → Msg × List Ev)
+theorem serveStep_congr (key : List Msg → K) (conv : List Msg → List Ev) (turn : List Ev → Msg × List Ev)
     (C C' : Cache K Ev) (msgs : List Msg)
     (h : ∀ p, 0 < p → p < msgs.length → find (key (msgs.take p)) C = find (key (msgs.take p)) C') :
     serveStep key conv turn C msgs = serveStep key conv turn C' msgs := by
@@ -276,7 +276,7 @@ def InjOn (key : List Msg → K) (L : Nat → List (Nat × Step Ev)) : Prop :=
     key x'.2.hist = key (x.2.req.take p) → x'.2.hist = x.2.req.take p
 
 theorem isolation_general (key : List Msg → K)
-    (conv : Bool → Msg → List Ev) (turn : List Ev → Msg × List Ev)
+    (conv : List Msg → List Ev) (turn : List Ev → Msg × List Ev)
     (L : Nat → List (Nat × Step Ev)) (hinj : InjOn key L) (hL : Compatible L) :
     ∀ (s : List (Nat × List Msg)) (D : List (Nat × Step Ev)),
       (∀ c, L c = ofConv c D ++ runT key conv turn (cacheOf key (ofConv c D)) (ofConv c s)) →
@@ -400,14 +400,14 @@ theorem lookupLongest_spec (key : List Msg → K) (C : Cache K Ev) (msgs : List 
       · exact i4 q h1 (by omega)
 
 /-- steps of a sequential run without conversation tags -/
-def runS (key : List Msg → K) (conv : Bool → Msg → List Ev) (turn : List Ev → Msg × List Ev) :
+def runS (key : List Msg → K) (conv : List Msg → List Ev) (turn : List Ev → Msg × List Ev) :
     Cache K Ev → List (List Msg) → List (Step Ev)
   | _, [] => []
   | C, r :: rs =>
     let st := serveStep key conv turn C r
     st :: runS key conv turn (entry key st :: C) rs
 
-theorem runT_steps (key : List Msg → K) (conv : Bool → Msg → List Ev) (turn : List Ev → Msg × List Ev) :
+theorem runT_steps (key : List Msg → K) (conv : List Msg → List Ev) (turn : List Ev → Msg × List Ev) :
     ∀ (s : List (Nat × List Msg)) (C : Cache K Ev),
       (runT key conv turn C s).map (·.2) = runS key conv turn C (s.map (·.2)) := by
   intro s
@@ -415,14 +415,14 @@ theorem runT_steps (key : List Msg → K) (conv : Bool → Msg → List Ev) (tur
   | nil => intro C; rfl
   | cons x s ih => intro C; obtain ⟨c, r⟩ := x; simp [runT, runS, ih]
 
-theorem runS_reqs (key : List Msg → K) (conv : Bool → Msg → List Ev) (turn : List Ev → Msg × List Ev) :
+theorem runS_reqs (key : List Msg → K) (conv : List Msg → List Ev) (turn : List Ev → Msg × List Ev) :
     ∀ (R : List (List Msg)) (C : Cache K Ev), (runS key conv turn C R).map (·.req) = R := by
   intro R
   induction R with
   | nil => intro C; rfl
   | cons r R ih => intro C; simp [runS, ih, serveStep]
 
-theorem runS_take (key : List Msg → K) (conv : Bool → Msg → List Ev) (turn : List Ev → Msg × List Ev) :
+theorem runS_take (key : List Msg → K) (conv : List Msg → List Ev) (turn : List Ev → Msg × List Ev) :
     ∀ (R : List (List Msg)) (C : Cache K Ev) (n : Nat),
       (runS key conv turn C R).take n = runS key conv turn C (R.take n) := by
   intro R
@@ -515,7 +515,7 @@ theorem chained_sub : ∀ (p1 : List (Step Ev)) (h : List Msg) (rest : List (Ste
   | cons y p1 ih => intro h rest hc; exact ih y.hist rest hc.2
 
 /-- a chained isolated run is determined, up to and including a step, by that step's history -/
-theorem chained_determined (key : List Msg → K) (conv : Bool → Msg → List Ev) (turn : List Ev → Msg × List Ev)
+theorem chained_determined (key : List Msg → K) (conv : List Msg → List Ev) (turn : List Ev → Msg × List Ev)
     (R R' : List (List Msg)) (pre pre' : List (Step Ev)) (x x' : Step Ev) (post post' : List (Step Ev))
     (hS : runS key conv turn [] R = pre ++ x :: post) (hS' : runS key conv turn [] R' = pre' ++ x' :: post')
     (hc : ChainedFrom [] (pre ++ x :: post)) (hc' : ChainedFrom [] (pre' ++ x' :: post'))
@@ -564,7 +564,7 @@ theorem chained_determined (key : List Msg → K) (conv : Bool → Msg → List 
 /-- every conversation of the schedule is turn-by-turn in its isolated replay -/
 def TurnByTurn (L : Nat → List (Nat × Step Ev)) : Prop := ∀ c, ChainedFrom [] ((L c).map (·.2))
 
-theorem compatible_of_turn_by_turn (key : List Msg → K) (conv : Bool → Msg → List Ev) (turn : List Ev → Msg × List Ev)
+theorem compatible_of_turn_by_turn (key : List Msg → K) (conv : List Msg → List Ev) (turn : List Ev → Msg × List Ev)
     (s : List (Nat × List Msg))
     (htt : TurnByTurn (fun c => runT key conv turn [] (ofConv c s))) :
     Compatible (fun c => runT key conv turn [] (ofConv c s)) := by
